@@ -60,14 +60,17 @@ class SymCtx:
         self.x = explorer
         self.assumptions = []
         self.inputs = {}       # name -> (sort, lo, hi)
+        self.hints = {}        # name -> (lo, hi) used only when sampling validation points
         self.goals = []
         self.notes = []
         self._fresh = 0
 
     # ---- inputs
-    def real(self, name, lo=None, hi=None, lo_open=False, hi_open=False):
+    def real(self, name, lo=None, hi=None, lo_open=False, hi_open=False, hint=None):
         v = X.var(name, 'R')
         self.inputs[name] = ('R', lo, hi)
+        if hint is not None:
+            self.hints[name] = hint
         if lo is not None:
             self.assumptions.append((X.lt if lo_open else X.le)(X.const(lo), v))
         if hi is not None:
@@ -173,7 +176,7 @@ class ConcCtx:
             raise KeyError('replay environment lacks %s' % name)
         return conv(self.env[name])
 
-    def real(self, name, lo=None, hi=None, lo_open=False, hi_open=False):
+    def real(self, name, lo=None, hi=None, lo_open=False, hi_open=False, hint=None):
         return self._get(name, lo, hi, float)
 
     def int(self, name, lo=None, hi=None):
@@ -364,6 +367,7 @@ class Explorer:
         pr.goals = ctx.goals
         pr.assumptions = list(ctx.assumptions)
         pr.inputs = dict(ctx.inputs)
+        pr.hints = dict(ctx.hints)
         pr.notes = ctx.notes
         pr.decisions = [d[0] for d in r.trace]
         return pr
@@ -522,6 +526,7 @@ class Prover:
         zA = [enc.boolean(a) for a in pr.assumptions]
         zP = [enc.boolean(c) for c in pr.pc]
         zG = [enc.boolean(g.cond) for g in pr.goals]
+        enc.finalize()
         s = z3.Solver()
         s.set('timeout', self.timeout)
         for z in zA + zP + enc.cons:
@@ -592,11 +597,13 @@ class Prover:
 
 
 # ------------------------------------------------------------------------------------------
-def sample_env(inputs, assumptions, rnd, tries=200):
+def sample_env(inputs, assumptions, rnd, tries=200, hints=None):
     """random point inside the declared bounds that satisfies the other assumptions"""
     for _ in range(tries):
         env = {}
         for name, (sort, lo, hi) in inputs.items():
+            if hints and name in hints:
+                lo, hi = hints[name]
             if sort == 'B':
                 env[name] = rnd.random() < 0.5
             elif sort == 'I':
